@@ -367,7 +367,11 @@ class StmtMixin:
         fr.locals["idx"] = idx0
         for gname, gsort in spec.ghost.items():
             st.ghost[gname] = SV(st.fresh("g_" + gname, _ghost_sort(gsort)), Ty("zarray"))
+        if getattr(spec, "assumed", False):
+            self.assumptions.add(f"ASSUMED loop contract (not proved) for `{key[:60]}` in {fname}: " + "; ".join(str(i) for i in spec.invariant)[:300])
         for k, (lab, f) in enumerate(eval_spec_list(self, spec.invariant, fr)):
+            if getattr(spec, "assumed", False):
+                break
             st.check(f"{base}/inv-init:{lab}", f, "loop-invariant-init", self.witness_fn(fr))
         # 2. havoc what the body writes
         entry_heap, entry_alloc = st.snapshot()
@@ -401,6 +405,10 @@ class StmtMixin:
         else:
             go = st.decide(self.truthy(self.ev(node.test, fr)), "while:" + ast.unparse(node.test)[:40])
         track = not getattr(spec, "options_lenient_default", False)
+        if getattr(spec, "assumed", False):
+            track = False
+            if go:
+                raise PathEnd()         # assumed loop contract: the arbitrary iteration is not explored, only the exit state is used
         if track:
             self.reach.setdefault(f"{base}/body-end", 0)
         if go:
